@@ -40,6 +40,15 @@ def seed():
         return 1
 
 
+def fresh_workdir(prop, tier):
+    """empty scratch directory of this run (stale traces / TLC output of earlier runs must not be mistaken for this one's)"""
+    d = os.path.join(OUT, prop, tier)
+    if os.path.isdir(d):
+        shutil.rmtree(d)
+    os.makedirs(d)
+    return d
+
+
 def goenv():
     env = dict(os.environ)
     env["GOFLAGS"] = "-mod=mod"
@@ -150,7 +159,7 @@ def run_monitor(workdir, traces, props, colseq=("a", "b"), name="mon", module="M
     if isinstance(traces, str):
         traces = [traces]
     t0 = time.time()
-    with concurrent.futures.ThreadPoolExecutor(max_workers=min(8, len(traces))) as ex:
+    with concurrent.futures.ThreadPoolExecutor(max_workers=min(12, len(traces))) as ex:
         futs = [ex.submit(_run_monitor1, workdir, t, props, colseq, "%s%d" % (name, i), module, timeout, extra_consts)
                 for i, t in enumerate(traces)]
         res = [f.result() for f in futs]
